@@ -9,6 +9,7 @@ INL = "src/include/stir/recon_buildblock/DataSymmetriesForBins_PET_CartesianGrid
 MEMBERS = (r"(?<![\w>.])(do_symmetry_90degrees_min_phi|do_symmetry_180degrees_min_phi|do_symmetry_swap_segment|do_symmetry_swap_s|do_symmetry_shift_z|num_views)\b",
            r"self->\1", (1, 99))
 
+PLL = "src/recon_buildblock/PoissonLogLikelihoodWithLinearModelForMeanAndProjData.cxx"
 KERNELS = [
     dict(name="K_find_basic_vs", file=INL, cxx_name="DataSymmetriesForBins_PET_CartesianGrid::find_basic_view_segment_numbers",
          func=r"DataSymmetriesForBins_PET_CartesianGrid::find_basic_view_segment_numbers\(ViewSegmentNumbers& v_s\) const",
@@ -47,6 +48,23 @@ KERNELS = [
                 (r"symmetries\.is_basic\(view_segment_num\)", "K_is_basic_ghost(view, segment_num)", 1),
                 (r"vs_nums_to_process\.push_back\(view_segment_num\);", "K_OUT_PUSH(view, segment_num);", 1),
                 (r"return vs_nums_to_process;", "return;", 1)]),
+    dict(name="K_balanced_count", file=PLL, cxx_name="PoissonLogLikelihoodWithLinearModelForMeanAndProjData::actual_subsets_are_approximately_balanced: counting loops (statement kernel)",
+         func=r"PoissonLogLikelihoodWithLinearModelForMeanAndProjData<TargetT>::actual_subsets_are_approximately_balanced\(\s*std::string& warning_message\) const",
+         span=(r"for \(int subset_num = 0; subset_num < this->num_subsets; \+\+subset_num\)", r"num_related_view_segment_numbers\(view_segment_num\);\s*\}\s*\}"),
+         c_header="void K_balanced_count(const struct PDI* pdi, const int num_subsets, const int max_segment_num_to_process)", loops=3,
+         rules=[(r"this->num_subsets", "num_subsets", 2), (r"this->max_segment_num_to_process", "max_segment_num_to_process", 2),
+                (r"this->proj_data_sptr->get_(min|max)_view_num\(\)", r"pdi->\1_view_num", 2),
+                (r"const ViewSegmentNumbers view_segment_num\(view_num, segment_num\);", "", 1),
+                (r"symmetries\.is_basic\(view_segment_num\)", "K_is_basic_ghost(view_num, segment_num)", 1),
+                (r"num_vs_in_subset\[subset_num\] \+= symmetries\.num_related_view_segment_numbers\(view_segment_num\);",
+                 "K_COUNT_ADD(subset_num, view_num, segment_num, K_num_related_ghost(view_num, segment_num));", 1)]),
+    dict(name="K_balanced_verdict", file=PLL, cxx_name="PoissonLogLikelihoodWithLinearModelForMeanAndProjData::actual_subsets_are_approximately_balanced: verdict loop (statement kernel)",
+         func=r"PoissonLogLikelihoodWithLinearModelForMeanAndProjData<TargetT>::actual_subsets_are_approximately_balanced\(\s*std::string& warning_message\) const",
+         span=(r"for \(int subset_num = 1; subset_num < this->num_subsets; \+\+subset_num\)", r"return true;"),
+         c_header="_Bool K_balanced_verdict(const int* num_vs_in_subset, const int num_subsets)", loops=1,
+         rules=[(r"this->num_subsets", "num_subsets", 1),
+                (r"std::stringstream str\(warning_message\);.*?warning_message = str\.str\(\);", "K_RECORD_WITNESS(subset_num);", 1),
+                (r"\btrue\b", "1", 1), (r"\bfalse\b", "0", 1)]),
     dict(name="K_get_subset_num", file="src/recon_buildblock/IterativeReconstruction.cxx",
          cxx_name="IterativeReconstruction<TargetT>::get_subset_num",
          func=r"IterativeReconstruction<TargetT>::get_subset_num\(\)", c_header="int K_get_subset_num(struct IR* self)", loops=0,
@@ -77,6 +95,10 @@ def jobs(tier, gen_dir):
         enforce("K_find_basic_vs_nums_in_subset", repl=["K_is_basic_ghost"], lc=True, suffix="/S=%d" % S, defines={"C06_S": S, "C06_MAXVIEWS": 1024},
                 params={"num_subsets": S})
     for S in subsets:
+        enforce("K_balanced_count", repl=["K_is_basic_ghost", "K_num_related_ghost"], lc=True, suffix="/S=%d" % S, defines={"C06_S": S, "C06_MAXVIEWS": 1024},
+                params={"num_subsets": S})
+        enforce("K_balanced_verdict", lc=True, suffix="/S=%d" % S, defines={"C06_S": S}, params={"num_subsets": S})
+    for S in subsets:
         enforce("K_get_subset_num", repl=["K_randomly_permute_subset_order"], suffix="/S=%d" % S, defines={"C06_S": S}, params={"num_subsets": S})
         out.append(Job("c06/lemma_schedule/S=%d" % S, HARNESS, "h_lemma_schedule", kind="lemma", kernels=["K_get_subset_num"], flags=CHK,
                        no_base_flags=True, min_obligations=1, timeout=TO, object_bits=10, replace=["K_get_subset_num"],
@@ -84,6 +106,10 @@ def jobs(tier, gen_dir):
     for lem in ("idempotent", "complete", "related_count", "subset_unique"):
         out.append(Job("c06/lemma_" + lem, HARNESS, "h_lemma_" + lem, kind="lemma", kernels=[], flags=CHK, no_base_flags=True,
                        min_obligations=1, timeout=300, object_bits=10, backend="kissat"))
+    for k in ("K_balanced_count", "K_balanced_verdict"):
+        out.append(Job("c06/canary/" + k, HARNESS, "h_" + k, enforce=k, kernels=[k], kind="canary", defines={"CANARY_" + k: None, "C06_S": 6, "C06_MAXVIEWS": 1024},
+                       replace=["K_is_basic_ghost", "K_num_related_ghost"] if k == "K_balanced_count" else [], loop_contracts=True,
+                       expect_fail=r"%s\.postcondition" % k, no_base_flags=True, timeout=300, object_bits=10, backend="kissat"))
     for k in ("K_find_basic_vs", "K_get_related", "K_find_basic_vs_nums_in_subset", "K_get_subset_num"):
         out.append(Job("c06/canary/" + k, HARNESS, "h_" + k, enforce=k, kernels=[k], kind="canary", defines={"CANARY_" + k: None, "C06_S": 6},
                        replace=["K_is_basic_ghost"] if "subset" in k and "nums" in k else (["K_randomly_permute_subset_order"] if k == "K_get_subset_num" else []),
@@ -99,7 +125,7 @@ TRUSTED = [
     "callers loop over all TOF bins around the view-segment list (not checked here)",
 ]
 ASSUMPTIONS = ["domain: num_views <= 4096, |segment| <= 100000, num_subsets <= 4096"]
-UNDECIDED_CLAUSES = ["'balanced' reported iff all subsets process the same number of viewgrams (K06c not built)",
+UNDECIDED_CLAUSES = ["that the per-subset total is the SUM of the contributions proved for each pair (additive accumulation read from the single '+=' statement)",
                      "the reconstruction driver passes get_subset_num()'s value to the objective function on every path",
                      "TrivialDataSymmetriesForBins / other symmetry classes"]
 
@@ -128,6 +154,7 @@ def replay(job, o, workroot, repo):
     S = job.params.get("num_subsets", 4)
     cands = []
     sub = None
+    nvc = None
     if kern == "K_get_subset_num":
         v = o.get("inputs", {})
         # counterexample of the verifier first (sub-iteration number / flags are fields of the fresh IR object)
@@ -139,6 +166,13 @@ def replay(job, o, workroot, repo):
         for start in (2, S, S + 1, 1):
             for r in (1, 0):
                 cands.append(["subset_num", S, start, 0, r, 3 * S])
+    elif kern in ("K_balanced_count", "K_balanced_verdict"):
+        # no direct counterexample mapping (the verdict loop's array is symbolic): sweep view counts around the job's number of subsets
+        for nv in (8, 12, 16, 6, 10, 20, 24, 30, 32, 36, 48):
+            for flags in ((1, 1, 1), (0, 1, 1), (0, 0, 0)):
+                for SS in sorted({S, 3, 4, 5, 13}):
+                    if SS <= nv:
+                        cands.append(["balanced", nv, SS] + list(flags))
     else:
         v = o.get("inputs", {})
         tf = lambda key, d: next((1 if str(val).upper().startswith("T") else 0 for k, val in v.items() if k.endswith(key)), d)
@@ -153,5 +187,5 @@ def replay(job, o, workroot, repo):
         st, detail = native.run(exe, c)
         if st == "confirmed":
             return {"status": "confirmed", "detail": detail, "command": "c06_replay " + " ".join(map(str, c)),
-                    "from_verifier_counterexample": c is cands[0] and ((kern == "K_get_subset_num" and sub is not None) or (kern != "K_get_subset_num" and bool(nvc)))}
+                    "from_verifier_counterexample": c is cands[0] and ((kern == "K_get_subset_num" and sub is not None) or (kern not in ("K_get_subset_num", "K_balanced_count", "K_balanced_verdict") and bool(nvc)))}
     return {"status": "not-reproduced", "detail": "%d native runs" % len(cands)}
